@@ -23,11 +23,13 @@ CFLAGS = ["-std=c11", "-g", "-O0", "-fsanitize=address,undefined", "-fno-sanitiz
 C_PROFILE = dict(opt_owned=True)
 
 
-def make_program(seed, idx, profile=None, ncalls=40, lang="c", **genkw):
+def make_program(seed, idx, profile=None, ncalls=40, lang="c", prog_fix=None, **genkw):
     profile = dict(C_PROFILE, **(profile or {}))
     rng = random.Random("prog/%s/%s" % (seed, idx))
     g = spec.Gen(rng, profile=profile, name="p%d" % idx, **genkw)
     prog = g.program()
+    if prog_fix:
+        prog_fix(prog)
     for t in prog.types():
         if t.kind == "opaque":
             m = spec.Method("vf_id", ("ref", None), [], ("prim", "u32"))
@@ -465,3 +467,137 @@ def run_miri_programs(seed, n, tag, profile=None, ncalls=25, flags_for=lambda i:
         one(todo[0])                       # builds the dependencies once; the rest only compile their own bin and interpret
         pmap(one, todo[1:])
     return progs
+
+
+# --------------------------------------------------------------------------
+# JS end-to-end leg: the generated JS bindings (spec ABI) against a real wasm32 module of the same bridge
+# --------------------------------------------------------------------------
+
+def set_pointer_width(bits):
+    """usize/isize are 32 bits wide on wasm32: values, canonical forms and literals follow spec.INTS."""
+    spec.INTS["isize"] = (bits, True)
+    spec.INTS["usize"] = (bits, False)
+
+
+JS_E2E_PROFILE = dict(out_structs=True, owned_slices=True, opt_owned=True, strs=False)
+
+
+def scalar_leaves(prog, t):
+    k = t[0]
+    if k == "struct":
+        return [l for fn, ft in prog.find(t[1]).fields for l in scalar_leaves(prog, ft)]
+    if k in ("slice", "str", "oslice", "ostr", "strs"):
+        return ["ptr", "len"]
+    if k == "opt" and t[1][0] not in ("oref", "obox"):
+        return ["union", "flag"]
+    return [k if k != "opt" else t[1][0]]
+
+
+def avoid_f23(prog):
+    """known finding F23 (keyed in C08's stub leg): a struct whose only scalar is an enum or an opaque pointer is passed as an aggregate by the
+    generated JS while rustc passes the scalar. On a real module the enum then arrives as a pointer value; such structs get a second scalar here."""
+    for t in prog.types():
+        if t.kind in ("struct", "outstruct"):
+            leaves = scalar_leaves(prog, ("struct", t.name))
+            if len(leaves) == 1 and leaves[0] in ("enum", "oref", "obox"):
+                t.fields.append(("fx", ("prim", "u8")))
+
+
+def run_js_program(seed, idx, tag, profile=None, ncalls=30, keep=False, rewrap=False):
+    """dict(status=ok|violation|skip|inconclusive, ...) for one generated bridge driven through its generated JS bindings in node."""
+    import emit_js
+    import profiles
+    import tooltier
+    import wasm32
+    assert spec.INTS["usize"][0] == 32, "call set_pointer_width(32) first"
+    prof = dict(profiles.gen_profile("js"))
+    prof.update(tooltier.AVOID.get("js", {}))
+    prof.update(JS_E2E_PROFILE)
+    prof.update(profile or {})
+    prog, sc = make_program(seed, idx, prof, ncalls, lang="js", prog_fix=avoid_f23)
+    d = toolrun.fresh_dir(toolrun.workdir(tag, "p%d" % idx))
+    res = {"idx": idx, "dir": d, "prog": prog, "script": sc, "calls": sum(1 for s in sc.steps if s["kind"] == "call"), "events": len(sc.expected), "lang": "js",
+           "sigs": [spec.method_sig(t, m) for t, m in prog.methods() if m.name not in ("make", "vf_id")]}
+    try:
+        drv = emit_js.JsEmitter(sc, rewrap=rewrap).emit()
+    except emit_js.Unsupported as e:
+        res.update(status="skip", stage="emit", detail="driver emitter: %s" % (e,))
+        return res
+    src = os.path.join(d, "lib.rs")
+    open(src, "w").write(emit_rust.emit_program(prog, bodies=True, target="wasm"))
+    rc, e = wasm32.compile_bridge(src, os.path.join(d, "vfprog.wasm"))
+    if rc != 0:
+        res.update(status="skip", stage="rustc-wasm32", detail=e[-2500:])
+        return res
+    out = os.path.join(d, "js")
+    rc, o, e = toolrun.run_tool("js", src, out, configs=["js.abi=spec"])
+    kind, det = toolrun.classify_tool(rc, e)
+    if kind != "ok":
+        res.update(status="skip", stage="tool:" + kind, detail=str(det)[:2000])
+        return res
+    open(os.path.join(d, "diplomat.config.mjs"), "w").write("export default { wasm_path: new URL('./vfprog.wasm', import.meta.url) };\n")
+    open(os.path.join(out, "vf_driver.mjs"), "w").write(drv)
+    rc, outp, err = run(["node", "--expose-gc", os.path.join(out, "vf_driver.mjs")], timeout=300, cwd=out)
+    got_all = outp.splitlines()
+    live = [l for l in got_all if l.startswith("LIVE ")]
+    got = [l for l in got_all if not l.startswith(("DROP ", "LIVE ", "UNCAUGHT"))]
+    res["uncaught"] = [l for l in got_all if l.startswith("UNCAUGHT ")]
+    exp = [l for l in sc.expected if not l.startswith("DROP ")] + ["END"]
+    res["observed_lines"] = got_all
+    res["observed_events"] = len(got)
+    res["live"] = live[0] if live else None
+    diff = first_diff(exp, got)
+    end = got_all.index("END") if "END" in got_all else len(got_all)
+    res["early_drops"] = [l for l in got_all[:end] if l.startswith("DROP ")]       # the driver still holds every handle until END
+    reps = [l for l in got_all if l.startswith(("PANIC", "GUARD-CORRUPTED", "DRIVER-EXCEPTION", "EXHAUSTED"))]
+    reps += ["destroyed while a handle to it is still reachable: " + l for l in res["early_drops"][:3]]
+    if "unreachable" in err or "RuntimeError" in err:
+        reps.append("wasm trap: " + err.strip().splitlines()[-1][:200] if err.strip() else "wasm trap")
+    if rc == -999:
+        res.update(status="inconclusive", stage="node", detail="watchdog")
+    elif diff or reps or rc != 0:
+        res.update(status="violation", stage="node", rc=rc, diff=diff, reports=reps, stderr=err[-3000:],
+                   context=got[max(0, (diff[0] if diff else len(got)) - 6):(diff[0] if diff else len(got)) + 3])
+    else:
+        res.update(status="ok")
+        if not keep:
+            try:
+                os.remove(os.path.join(d, "vfprog.wasm"))
+            except OSError:
+                pass
+    return res
+
+
+def js_e2e_leg(chk, seed, n, tag, profile=None, rewrap=False, ncalls=30, only=None, label="js-e2e"):
+    """Runs n generated bridges through their generated JS (spec ABI) on a real wasm32 module; reports through chk.
+    only(res) -> bool may restrict which disagreements belong to the calling property. Returns stats."""
+    import wasm32
+    set_pointer_width(32)
+    wasm32.e2e_artifacts()
+    results = pmap(lambda i: run_js_program(seed, i, tag, profile=profile, ncalls=ncalls, rewrap=rewrap), range(n))
+    st = {"programs": 0, "calls": 0, "events": 0, "skipped": 0, "finalizer_exceptions": 0, "live_blocks_at_end": 0, "distinct_shapes": set()}
+    for r in results:
+        if r["status"] == "skip":
+            st["skipped"] += 1
+            chk.inconc("%s p%d skipped at %s: %s" % (label, r["idx"], r["stage"], (r.get("detail") or "")[-300:].replace("\n", " ")))
+            continue
+        if r["status"] == "inconclusive":
+            chk.inconc("%s p%d: %s" % (label, r["idx"], r.get("detail")))
+            continue
+        st["programs"] += 1
+        st["calls"] += r["calls"]
+        st["events"] += r.get("observed_events", 0)
+        st["finalizer_exceptions"] += len(r.get("uncaught") or [])
+        st["distinct_shapes"].update(r["sigs"])
+        if r.get("live"):
+            try:
+                st["live_blocks_at_end"] += int(r["live"].split()[1])
+            except ValueError:
+                pass
+        if r["status"] == "violation" and (only is None or only(r)):
+            d = r.get("diff")
+            what = ("event %d expected `%s` observed `%s`" % d) if d else str(r.get("reports") or r.get("stderr"))[:300]
+            chk.violation("%s_p%d" % (label.replace("-", ""), r["idx"]), "%s p%d (generated JS, js.abi=spec, on a real wasm32 module of the same bridge): %s%s" % (
+                label, r["idx"], what, ("; " + "; ".join(r["reports"][:2])) if d and r.get("reports") else ""), witness(r))
+    st["distinct_shapes"] = len(st["distinct_shapes"])
+    return st
